@@ -57,7 +57,7 @@ def extra_checks(ctx, exes):
     for name, out in M3["failed"][:3]:
         ctx.violations.append({"kind": "broken-proof", "case": "Gen_PtrPrograms: " + name, "impl": "", "model": out, "spec": "", "class": "m3",
                                "what": "the program translated from the AST of this instantiated pointer operator is no longer provably equal to Ptr.ptr_arith / ptr_index_gen for all inputs"})
-DRIVERS = drivers("ARITH", ["arith", "stride"])
+DRIVERS = drivers("ARITH", ["arith", "stride"]) + drivers("ARITH", ["arith"], CFG_F)
 PTEES = {"char": (1, 1), "short": (2, 2), "int": (4, 4), "long": (4, 4), "ulong": (4, 4), "llong": (8, 8), "double": (8, 8),
          "ptr": (4, 2), "arr4": (16, 16), "larr3": (12, 12), "llarr3": (24, 24), "ullarr2x2": (32, 32), "sarr5": (10, 10), "ps": (32, 32)}   # guest stride under (cfg32, cfg16)
 
@@ -116,9 +116,24 @@ def gen_cases(tier, rng):
                             if fits(k, n) and (wrapk != "wcell" or fits("int" if k in ("int", "long") else "uint", n + 3)):
                                 for form in ("add", "sub", "index", "radd"):
                                     cases.append("arith%s %s %s %d %s %d %s" % (cfg, pt, form, p, k, n, wrapk))
+    # the same operators on the back end whose same-sandbox test is built on RLBox's finder, with ONE sandbox alive: the
+    # containment check must still be exact (every address outside the single sandbox is refused)
+    for cfg, c in CFG_F.items():
+        base, size = c["bases"][0], c["size"]
+        for pt in ("char", "int", "ps"):
+            st = PTEES[pt][0]
+            nelem = size // st
+            for p in (base, base + st, base + (nelem - 1) * st, base + 4096 * st):
+                idx = (p - base) // st
+                to_end = nelem - 1 - idx
+                for form in ("add", "sub", "index", "radd"):
+                    for k in ("int", "llong"):
+                        for n in (0, 1, -1, to_end, to_end + 1, -idx, -idx - 1, 1 << 20, -(1 << 20), 1 << 30, (1 << 40) + 1, -(1 << 40)):
+                            if fits(k, n):
+                                cases.append("arith%s %s %s %d %s %d" % (cfg, pt, form, p, k, n))
     if tier == "quick" and len(cases) > 60000:
-        keep = [c for c in cases if c.startswith("stride") or "pcell" in c or "wcell" in c]
-        rest = [c for c in cases if not (c.startswith("stride") or "pcell" in c or "wcell" in c)]
+        keep = [c for c in cases if c.startswith("stride") or "pcell" in c or "wcell" in c or c.startswith("arith3f")]
+        rest = [c for c in cases if not (c.startswith("stride") or "pcell" in c or "wcell" in c or c.startswith("arith3f"))]
         rng.shuffle(rest)
         cases = keep + rest[:max(0, 60000 - len(keep))]
     return cases
